@@ -147,6 +147,16 @@ CHECKS = {
              'implies, close on destruction, an address seen again is a new connection with a fresh object table, and '
              'nothing escapes the breakpoint handlers, which never halt the program.',
         ref='3/C15', engine='BFS'),
+    'C13': dict(
+        technique='stateless exploration of all 2-thread schedules of the real run_program with bounded preemptions '
+                  '(settrace baton scheduler, model pipe, scripted child) + deviation-bounded enumeration of short reads + '
+                  'the real command line in three modes under several hash seeds',
+        text='Every schedule with <=2/<=3 preemptions (a scheduling point at every line of runner.py and every pipe '
+             'operation) must end without deadlock or assertion, with the file-mode twin\'s output, the child\'s status and '
+             'the prompt after all output; every placement of <=2/<=3 cuts at every byte offset must not change the output; '
+             'the real CLI gives identical stdout/stderr in file, pipe and run mode across hash seeds and returns the '
+             'child\'s exit status.',
+        ref='3/C13', engine='ILV+DEV'),
 }
 
 NOT_YET = 'check under construction in this round; will be claimed when mc/props/%s.py lands'
